@@ -60,7 +60,8 @@ def all_frame_classes():
             continue
         mod = importlib.import_module('ubxlib.' + m.name)
         for n, c in inspect.getmembers(mod, inspect.isclass):
-            if issubclass(c, UbxFrame) and c is not UbxFrame and c.__module__ == mod.__name__:
+            # private helper bases (leading underscore) are not message types of the library
+            if issubclass(c, UbxFrame) and c is not UbxFrame and c.__module__ == mod.__name__ and not n.startswith('_'):
                 out[n] = c
     return out
 
